@@ -57,6 +57,7 @@ def main():
                 if s2 != s:
                     open(p, "w").write(s2)
         cmd = cmd.replace(outdir.rstrip("/"), dest).replace(agent_wt.rstrip("/"), wt)
+        cmd = re.sub(r"\s+\[[a-z_]+=[^\]]*\]", "", cmd)  # optional-argument placeholders of a usage line: "./demo [threads=4]"
         if "&&" not in cmd and cmd.startswith("g++"):
             cmd += " && ./demo"
         meta = {"id": mid, "property": prop, "demo_cmd": cmd.replace(wt, "<worktree>"), "steps": {}}
